@@ -587,6 +587,16 @@ func (w *Writer) WriteCompressed(refs []Reference, objects ...Object) error {
 		return nil
 	}
 
+	// The reader refuses object streams with more than maxObjStmObjects
+	// members, so larger sets are split over several object streams.
+	for len(objects) > maxObjStmObjects {
+		err := w.WriteCompressed(refs[:maxObjStmObjects], objects[:maxObjStmObjects]...)
+		if err != nil {
+			return err
+		}
+		refs, objects = refs[maxObjStmObjects:], objects[maxObjStmObjects:]
+	}
+
 	sRef := w.Alloc()
 	for i, ref := range refs {
 		err := w.setXRef(ref, &xRefEntry{InStream: sRef, Pos: int64(i)})
@@ -655,6 +665,10 @@ func (w *Writer) WriteCompressed(refs []Reference, objects ...Object) error {
 
 	return nil
 }
+
+// maxObjStmObjects is the largest number of objects stored in one object
+// stream (the limit enforced by Reader.getObjStm).
+const maxObjStmObjects = 10000
 
 func checkCompressed(refs []Reference, objects []Object) error {
 	if len(refs) != len(objects) {
